@@ -523,6 +523,14 @@ func (e *Enc) siteKey(in ssa.Instruction) (string, bool) {
 		if in.Op == token.ARROW {
 			return "recv ", true
 		}
+		if in.Op == token.MUL {
+			// a load of a struct field: `at [every] load <field>`
+			if fa, ok := in.X.(*ssa.FieldAddr); ok {
+				if st, ok2 := fa.X.Type().Underlying().(*types.Pointer).Elem().Underlying().(*types.Struct); ok2 {
+					return "load " + st.Field(fa.Field).Name(), true
+				}
+			}
+		}
 	}
 	return "", false
 }
